@@ -342,7 +342,16 @@ func c11Show(as []c11Amp) string {
 }
 
 func c11NewSeq(id string, codes []int) *obiseq.BioSequence {
-	return obiseq.NewBioSequence(id, []byte(c11Str(codes)), "")
+	s := obiseq.NewBioSequence(id, []byte(c11Str(codes)), "")
+	if len(codes)%3 == 0 {
+		// a template that is itself the product of an earlier PCR (nested PCR, re-amplification of an amplicon
+		// file): it carries the annotations of that PCR; what is reported for the new amplicon is computed anew
+		for k, v := range map[string]any{"forward_primer": "gggggggg", "reverse_primer": "cccccccc", "forward_match": "gggggggg",
+			"reverse_match": "cccccccc", "forward_error": 7, "reverse_error": 9, "direction": "sideways", "taxid": 9606} {
+			s.SetAttribute(k, v)
+		}
+	}
+	return s
 }
 
 // ------------------------------------------------------------------------ obipcr binary
